@@ -117,7 +117,13 @@ func newC03Sys(n, bitsPer int) *c03Sys {
 		{Bridge: 1, Seq: 21, From: "l2other", To: world.Addr("alice").String(), Denom: "uxx", Amount: 7},
 		{Bridge: 1, Seq: 22, From: "l2other", To: bob, Denom: "uyy", Amount: 3},
 	}
-	return &c03Sys{n: n, tree: mkTree(fmt.Sprintf("T%d", n), ws, 1), other: mkTree("Tother", other, 1), bitsPer: bitsPer}
+	// the two-leaf tree is committed under version byte 0 (legal, and the value an omitted or emptied version
+	// field could be mistaken for), the others under 1
+	version := byte(1)
+	if n == 2 {
+		version = 0
+	}
+	return &c03Sys{n: n, tree: mkTree(fmt.Sprintf("T%d", n), ws, version), other: mkTree("Tother", other, 1), bitsPer: bitsPer}
 }
 
 type c03Propose struct {
